@@ -7,7 +7,9 @@ from impl import BuildError
 
 
 def tier_n(run, quick, thorough):
-    return thorough if run.tier == "thorough" else quick
+    """input counts per tier; the thorough tier is capped at 4x the quick tier: every case of every build variant is kept
+    in memory for the cross-variant oracles, and 25x quick (the original plan) needed more than 45 GB"""
+    return min(thorough, 4 * quick) if run.tier == "thorough" else quick
 
 
 # ------------------------------------------------------------------ shared pieces
@@ -407,14 +409,16 @@ def lexer_check(run, module, oracle, n_quick, n_thorough, variants=("debug", "re
     T = impl.tables("debug")
     n = tier_n(run, n_quick, n_thorough)
     ins, tags = base_inputs(run, rng, n, n // 3, n // 4)
-    ins += gen.context_exhaustive(3 if run.tier == "thorough" else 2, rng.fork("ctx"))
+    ins += gen.context_exhaustive(2, rng.fork("ctx"))
+    if run.tier == "thorough":
+        ins += gen.context_exhaustive(3, rng.fork("ctx3"), limit=24 * n_quick)
     if run.tier != "thorough":
         ins += gen.context_exhaustive(3, rng.fork("ctx3"), limit=n)
         ins += gen.small_context_exhaustive(4, rng.fork("sctx4"), limit=8 * n)
         ins += gen.small_context_exhaustive(5, rng.fork("sctx5"), limit=4 * n)
     else:
-        ins += gen.small_context_exhaustive(4)
-        ins += gen.small_context_exhaustive(5, rng.fork("sctx5"), limit=400000)
+        ins += gen.small_context_exhaustive(4, rng.fork("sctx4"), limit=32 * n_quick)
+        ins += gen.small_context_exhaustive(5, rng.fork("sctx5"), limit=16 * n_quick)
     if extra_inputs:
         x = extra_inputs(rng, run)
         ins += x
